@@ -90,15 +90,15 @@ int rc_decode_strict(const uint8_t *s, size_t n, rc_pkt_t *pk, int maxpk, char *
 	}
 	return np;
 }
-int rc_decode_rx(const uint8_t *s, size_t n, rc_pkt_t *pk, int maxpk) {
+int rc_decode_rx(const uint8_t *s, size_t n, rc_pkt_t *pk, int maxpk, int synced) {
 	int np = 0; size_t i = 0;
 	/* a receiver synchronises on the first delimiter */
-	while (i < n && s[i] != RC_MAGIC) i++;
+	if (!synced) while (i < n && s[i] != RC_MAGIC) i++;
 	while (i < n) {
 		/* skip delimiters */
 		while (i < n && s[i] == RC_MAGIC) i++;
 		if (i >= n) break;
-		size_t start = i - 1;
+		size_t start = i ? i - 1 : 0;
 		uint8_t buf[1100]; int bl = 0; int esc = 0; int dontcare = 0; int closed = 0;
 		while (i < n) {
 			uint8_t b = s[i++];
